@@ -421,6 +421,45 @@ def crep2(n: size, A: f32[n, n], B: f32[n, n], v: f32[n], o: f32[n], al: f32):
     for i in seq(0, n):
         v[i] = v[0] * v[i]
 """, callees=("gemv", "sc"))
+S("call/replace3", "call", """
+@proc
+def shifted(m: size, off: index, d: [f32][m + 2], s: [f32][m]):
+    assert off >= 0
+    assert off <= 2
+    for k in seq(0, m):
+        d[k + off] = s[k]
+
+@proc
+def cond_set(m: size, b: bool, d: [f32][m]):
+    for k in seq(0, m):
+        if b:
+            d[k] = 1.0
+
+@proc
+def mat_t(m: size, A: [f32][m, m], B: [f32][m, m]):
+    for i in seq(0, m):
+        for j in seq(0, m):
+            A[i, j] = B[j, i]
+
+@proc
+def crep3(n: size, x: f32[n + 4], y: f32[n + 2], P: f32[n, n], Q: f32[n, n], flag: bool):
+    for i in seq(0, n):
+        x[i + 1] = y[i]
+    for i in seq(0, n):
+        x[i + 3] = y[i]
+    for i in seq(0, n):
+        if flag:
+            y[i] = 1.0
+    for i in seq(0, n):
+        for j in seq(0, n):
+            P[i, j] = Q[j, i]
+    for i in seq(0, n):
+        for j in seq(0, n):
+            P[i, j] = Q[i, j]
+    for i in seq(0, n):
+        for j in seq(0, n):
+            P[j, i] = Q[i, j]
+""", callees=("shifted", "cond_set", "mat_t"))
 S("call/noop", "call", """
 @proc
 def nop(m: size, d: [f32][m]):
